@@ -626,7 +626,16 @@ type c13ctx struct {
 	seenErr  map[string]bool
 }
 
-func c13runes(s string) string { return c12Runes(s) }
+// a rune list as `(hx "...")`: six hexadecimal digits per rune (decoded by Corr/CorrC13.v)
+func c13runes(s string) string {
+	var b strings.Builder
+	b.WriteString("(hx \"")
+	for _, r := range s {
+		fmt.Fprintf(&b, "%06x", r)
+	}
+	b.WriteString("\")")
+	return b.String()
+}
 
 func (c *c13ctx) replayArg(k c13case) string {
 	b, _ := json.Marshal(k)
@@ -732,7 +741,7 @@ func (c *c13ctx) judgeRender(k c13case, fe *file.Error) {
 		rep.fail(Failure{Key: "C13-format", What: "Error() is not message (line:column+1) snippet", Input: k, Want: fmt.Sprintf("%q", wantText), Got: fmt.Sprintf("%q", fe.Error()), Replay: c.replayArg(k)})
 	}
 	// Coq case: the model renders from (source, line, column) alone
-	if utf8.ValidString(k.Src) {
+	if utf8.ValidString(k.Src) && utf8.RuneCountInString(k.Src) <= 160 {
 		key := fmt.Sprintf("%s|%d|%d", k.Src, fe.Line, fe.Column)
 		if !c.seenErr[key] {
 			c.seenErr[key] = true
@@ -1521,7 +1530,7 @@ func runC13() {
 
 	rep.Distinct = len(c.distinct)
 	rep.Rule = "type-directed expression trees (depth 2-4) over the environment universe plus non-ASCII field names, every node kind, printed with known anchor tokens and laid out with random blanks, tabs, CR LF and line feeds, multi-byte runes in string literals and identifiers; exactly one fault injected per case: unknown identifier/function/field/method; type mismatch at one operator/builtin/index/argument/condition/closure; syntax fault at one token (stray closer, missing operand, invalid or malformed number, bad regexp, unrecognised character, unterminated string); run time: one failing operation (index, division, nil member, panicking function, dynamic type errors, closures) wrapped in up to three guards with never-evaluated failing decoys, compiled typed/untyped x optimized/unoptimized and run; plus Source.Snippet / Error.Bind on generated multi-line texts at every line and at columns 0, 1, middle, end, beyond. distinct_nontrivial counts distinct (stream, source, mode) whose source has several lines or a multi-byte rune or tab before the fault on its line"
-	max := 1500
+	max := 800
 	if *tier == "thorough" {
 		max = 8000
 	}
@@ -1535,10 +1544,14 @@ func runC13() {
 		return ys
 	}
 	srcCases := append(sample(c.errCases, max), sample(c.snipCase, max/2)...)
-	rep.writeShards("cases_c13", "From Coq Require Import ZArith List.\nRequire Import X.Base.Value X.File.Source X.Corr.CorrC13.\nImport ListNotations.\nOpen Scope Z_scope.\n", "c13case", "c13_mismatches", srcCases)
+	saved := *shards
+	if *tier != "thorough" {
+		*shards = 8
+	}
+	rep.writeShards("cases_c13", "From Coq Require Import ZArith List String.\nRequire Import X.Base.Value X.File.Source X.Corr.CorrC13.\nImport ListNotations.\nOpen Scope Z_scope.\nOpen Scope string_scope.\n", "c13case", "c13_mismatches", srcCases)
 	// lexer model on the same sources: token kinds, values, locations, lexer-error locations
 	var lexCases []string
-	for _, src := range sample(c.lexSrcs, 200) {
+	for _, src := range sample(c.lexSrcs, 140) {
 		toks, err, p := c12SafeLex(src)
 		if p != nil {
 			continue
@@ -1547,12 +1560,13 @@ func runC13() {
 			lexCases = append(lexCases, fmt.Sprintf("CLex %s %s %s", c12Runes(src), coqClasses(src), obs))
 		}
 	}
-	saved := *shards
-	*shards = 8
+	if *tier != "thorough" {
+		*shards = 4
+	}
 	rep.writeShards("cases_c13_lex", "From Coq Require Import ZArith List String Floats.\nRequire Import X.Base.Value X.Syn.Tok X.Lex.Lexer X.Corr.CorrC12.\nImport ListNotations.\nOpen Scope Z_scope.\n", "c12case", "c12_mismatches", lexCases)
 	// parser model: trees with every node location, parser-error locations
 	var parseCases []string
-	for _, src := range sample(c.parseSrc, 160) {
+	for _, src := range sample(c.parseSrc, 110) {
 		if line, ok := c11CoqCase(src); ok {
 			parseCases = append(parseCases, line)
 		}
